@@ -347,7 +347,7 @@ def run_property(pid, units, validate_ops, selftests, bounds, assumptions, uncov
         if r.get('cex'):
             if r['cex']['case'].get('kind') == 'pair':
                 replay_pair(rep, pid, name, r['cex'])
-            elif r['cex']['case'].get('kind') in ('table', 'freeindex'):
+            elif r['cex']['case'].get('kind') in ('table', 'freeindex', 'vars'):
                 import printcore
                 printcore.replay_print(rep, pid, name, r['cex'])
             elif r['cex']['case'].get('kind') == 'parse':
